@@ -111,6 +111,11 @@ func (a *kAggregate) Next(ctx context.Context) ([]model.StepVector, error) {
 
 	result := a.vectorPool.GetVectorBatch()
 	for i, vector := range in {
+		// k is evaluated per step. As in the Prometheus engine it has to fit
+		// into an int64, and a k below one selects nothing.
+		if p := a.params[i]; !(p <= math.MaxInt64 && p >= math.MinInt64) {
+			return nil, errors.Newf("Scalar value %v overflows int64", p)
+		}
 		a.aggregate(vector.T, &result, int(a.params[i]), vector.SampleIDs, vector.Samples)
 		a.next.GetPool().PutStepVector(vector)
 	}
@@ -163,6 +168,9 @@ func (a *kAggregate) init(ctx context.Context) error {
 
 func (a *kAggregate) aggregate(t int64, result *[]model.StepVector, k int, SampleIDs []uint64, samples []float64) {
 	for i, sId := range SampleIDs {
+		if k < 1 {
+			break
+		}
 		h := a.inputToHeap[sId]
 		if h.Len() < k || h.compare(h.entries[0].total, samples[i]) || math.IsNaN(h.entries[0].total) {
 			if k == 1 && h.Len() == 1 {
